@@ -58,6 +58,11 @@ for pol, dbn, unit, pfx in (('DB64', 'db', 'u_db', 'tree.db64'), ('OLC64', 'olc_
         roots={'CLEAR': (D64 if dbn == 'db' else r'^unodb::olc_db<unsigned long, %s >::' % SPAN) + r'clear\(\)'}, stubs={'DELSUB': POLICY, 'QSBR_INSTANCE?': r'^unodb::qsbr::instance\(\)', 'QS_SINGLE?': r'^unodb::qsbr_state::single_thread_mode\('}, cfgs=cfgs, thorough_cfgs=ALL_CFGS,
         unwind=8, floor=3, timeout=600, memsafe=False, under_contract=['%s<uint64_t>::clear (whole tree through D, statistics zeroed)' % dbn],
         trusted=['contract D of delete_subtree (proved per function in the delsub jobs + induction)'])
+    DBRX = (D64 if dbn == 'db' else r'^unodb::olc_db<unsigned long, %s >::' % SPAN)
+    job('%s.dtor' % pfx, ['C10', 'C01', 'C16'], unit, 'proofs/tree/delsub.c', defines=['PART=4', 'POL=' + pol],
+        roots={'DTOR': DBRX + r'~(olc_)?db\(\)', 'EMPTY': DBRX + r'empty\(\) const'}, stubs={'DELSUB': POLICY, 'QSBR_INSTANCE?': r'^unodb::qsbr::instance\(\)', 'QS_SINGLE?': r'^unodb::qsbr_state::single_thread_mode\('}, cfgs=cfgs, thorough_cfgs=ALL_CFGS,
+        unwind=8, floor=3, timeout=600, memsafe=False, under_contract=['%s<uint64_t>::~%s (whole tree through D)' % (dbn, dbn), '%s<uint64_t>::delete_root_subtree' % dbn, '%s<uint64_t>::empty' % dbn],
+        trusted=['contract D of delete_subtree (proved per function in the delsub jobs + induction)'])
 # ---- insert at an inner node, prefix-split branch (all classes at once; the add / grow / descend branch is the parked step proof k1-k4)
 job('tree.db64.insert.split', ['C01', 'C08', 'C10', 'C16'], 'u_db', 'proofs/tree/insert_split.c', defines=['POL=DB64'],
     roots={'INSERT_INTERNAL': D64 + r'insert_internal\('}, stubs=dict(ADT, **{'AOCS*': r'unodb::detail::impl_helpers::add_or_choose_subtree<unsigned long'}),
